@@ -182,4 +182,227 @@ theorem md5Hash_eq_spec (m : Bytes) : md5Hash m = Spec.md5 m := by
     (fun s b _ => md5Compress_length s b) md5IV (pad le64 m) rfl
   rw [e, md5Out_eq _ l]
 
+/-! ## SHA-1
+
+The source rotates with `^` instead of `|` and writes `Ch`/`Maj` with `|` where FIPS 180-4 has `⊕`;
+these agree on 32-bit words only, so the equality is stated for chaining values of five words
+below 2^32 (an invariant of the iteration: `Gen.sha1Init` has it and every addition is reduced). -/
+
+theorem testBit_false_of_lt {x k i : Nat} (h : x < 2 ^ k) (hki : k ≤ i) : x.testBit i = false :=
+  Nat.testBit_lt_two_pow (Nat.lt_of_lt_of_le h (Nat.pow_le_pow_right (by decide) hki))
+
+theorem rot_xor_eq_or (x n : Nat) (hx : x < 2 ^ 32) (hn : n ≤ 32) :
+    ((x <<< n) % 2 ^ 32) ^^^ (x >>> (32 - n)) = ((x <<< n) % 2 ^ 32) ||| (x >>> (32 - n)) := by
+  apply Nat.eq_of_testBit_eq
+  intro j
+  simp only [Nat.testBit_xor, Nat.testBit_or, Nat.testBit_mod_two_pow, Nat.testBit_shiftLeft,
+    Nat.testBit_shiftRight]
+  by_cases hj : j ≥ n
+  · have : x.testBit (32 - n + j) = false := testBit_false_of_lt hx (by omega)
+    simp [this]
+  · simp [hj]
+
+theorem sha1RotL_eq (x n : Nat) (hx : x < 2 ^ 32) (hn : n ≤ 32) : Gen.sha1RotL x n = rotl32 x n := by
+  have e : (32 + 4294967296 - n % 4294967296) % 4294967296 = 32 - n := by omega
+  have := rot_xor_eq_or x n hx hn
+  simp only [Gen.sha1RotL, rotl32, M32, e]
+  exact this
+
+theorem rotl32_lt (x n : Nat) (hx : x < 2 ^ 32) : rotl32 x n < 2 ^ 32 := by
+  unfold rotl32 M32
+  apply Nat.or_lt_two_pow
+  · exact Nat.mod_lt _ (by decide)
+  · exact Nat.lt_of_le_of_lt (Nat.shiftRight_le _ _) hx
+
+theorem sha1Word_eq (b0 b1 b2 b3 : Nat) (h0 : b0 < 256) (h1 : b1 < 256) (h2 : b2 < 256) (h3 : b3 < 256) :
+    Gen.sha1Word b0 b1 b2 b3 = 16777216 * b0 + 65536 * b1 + 256 * b2 + b3 := by
+  unfold Gen.sha1Word
+  have m0 : (b0 <<< 24) % 4294967296 = b0 <<< 24 := by rw [Nat.shiftLeft_eq]; omega
+  have m1 : (b1 <<< 16) % 4294967296 = b1 <<< 16 := by rw [Nat.shiftLeft_eq]; omega
+  have m2 : (b2 <<< 8) % 4294967296 = b2 <<< 8 := by rw [Nat.shiftLeft_eq]; omega
+  rw [m0, m1, m2]
+  have l1 : b1 <<< 16 < 2 ^ 24 := by rw [Nat.shiftLeft_eq]; omega
+  rw [← Nat.shiftLeft_add_eq_or_of_lt l1]
+  have e1 : b0 <<< 24 + b1 <<< 16 = (b0 * 256 + b1) <<< 16 := by simp only [Nat.shiftLeft_eq]; omega
+  have l2 : b2 <<< 8 < 2 ^ 16 := by rw [Nat.shiftLeft_eq]; omega
+  rw [e1, ← Nat.shiftLeft_add_eq_or_of_lt l2]
+  have e2 : (b0 * 256 + b1) <<< 16 + b2 <<< 8 = (b0 * 65536 + b1 * 256 + b2) <<< 8 := by
+    simp only [Nat.shiftLeft_eq]; omega
+  have l3 : b3 < 2 ^ 8 := by omega
+  rw [e2, ← Nat.shiftLeft_add_eq_or_of_lt l3]
+  simp only [Nat.shiftLeft_eq]; omega
+
+theorem beWordAt_lt (blk : Bytes) (k : Nat) : beWordAt blk k < 2 ^ 32 := by
+  have b0 := (blk.getD (4 * k) 0).toNat_lt
+  have b1 := (blk.getD (4 * k + 1) 0).toNat_lt
+  have b2 := (blk.getD (4 * k + 2) 0).toNat_lt
+  have b3 := (blk.getD (4 * k + 3) 0).toNat_lt
+  unfold beWordAt; omega
+
+theorem sha1Words16_eq (blk : Bytes) : sha1Words16 blk = (List.range 16).map (beWordAt blk) := by
+  unfold sha1Words16
+  have : Gen.sha1NFirst = 16 := rfl
+  rw [this]
+  apply List.map_congr_left
+  intro i _
+  have e : ∀ j, i * 4 + j = 4 * i + j := by intro j; omega
+  simp only [byteAt, e, Nat.add_zero]
+  exact sha1Word_eq _ _ _ _ (UInt8.toNat_lt _) (UInt8.toNat_lt _) (UInt8.toNat_lt _) (UInt8.toNat_lt _)
+
+def AllW32 (l : List Nat) : Prop := ∀ x ∈ l, x < 2 ^ 32
+
+theorem getD_lt (l : List Nat) (h : AllW32 l) (i : Nat) : l.getD i 0 < 2 ^ 32 := by
+  rw [List.getD_eq_getElem?_getD]
+  cases hi : l[i]? with
+  | none => simp
+  | some v => simpa using h v (List.mem_of_getElem? hi)
+
+theorem sha1Extend_eq : ∀ (n : Nat) (w : List Nat), AllW32 w → sha1Extend n w = sha1Expand n w
+  | 0, _, _ => rfl
+  | n + 1, w, hw => by
+    have hx : w.getD 2 0 ^^^ w.getD 7 0 ^^^ w.getD 13 0 ^^^ w.getD 15 0 < 2 ^ 32 :=
+      Nat.xor_lt_two_pow (Nat.xor_lt_two_pow (Nat.xor_lt_two_pow (getD_lt w hw 2) (getD_lt w hw 7)) (getD_lt w hw 13))
+        (getD_lt w hw 15)
+    have e : Gen.sha1Sched (w.getD 2 0) (w.getD 7 0) (w.getD 13 0) (w.getD 15 0) =
+        rotl32 (w.getD 2 0 ^^^ w.getD 7 0 ^^^ w.getD 13 0 ^^^ w.getD 15 0) 1 := by
+      unfold Gen.sha1Sched
+      exact sha1RotL_eq _ 1 hx (by decide)
+    simp only [sha1Extend, sha1Expand, e]
+    apply sha1Extend_eq n
+    intro x hxm
+    rcases List.mem_cons.mp hxm with rfl | h
+    · exact rotl32_lt _ _ hx
+    · exact hw x h
+
+theorem sha1W_eq (blk : Bytes) : sha1W blk = Spec.sha1W blk := by
+  unfold sha1W Spec.sha1W
+  have : Gen.sha1NWords - Gen.sha1NFirst = 64 := rfl
+  rw [this, sha1Words16_eq, sha1Extend_eq]
+  intro x hx
+  simp only [List.mem_reverse, List.mem_map] at hx
+  obtain ⟨k, _, rfl⟩ := hx
+  exact beWordAt_lt blk k
+
+theorem not32_testBit (x j : Nat) (hx : x < 2 ^ 32) :
+    (4294967295 - x % 4294967296).testBit j = (decide (j < 32) && !x.testBit j) := by
+  have e : 4294967295 - x % 4294967296 = 2 ^ 32 - (x + 1) := by omega
+  rw [e, Nat.testBit_two_pow_sub_succ hx]
+
+theorem sha1F0_eq (b c d : Nat) (hb : b < 2 ^ 32) : Gen.sha1F0 b c d = sha1Ch b c d := by
+  unfold Gen.sha1F0 sha1Ch not32 M32
+  have e : 4294967296 - 1 - b % 4294967296 = 4294967295 - b % 4294967296 := by omega
+  rw [e]
+  apply Nat.eq_of_testBit_eq
+  intro j
+  simp only [Nat.testBit_or, Nat.testBit_xor, Nat.testBit_and, not32_testBit b j hb]
+  cases b.testBit j <;> cases c.testBit j <;> cases d.testBit j <;> simp
+
+theorem sha1F2_eq (b c d : Nat) : Gen.sha1F2 b c d = sha1Maj b c d := by
+  unfold Gen.sha1F2 sha1Maj
+  apply Nat.eq_of_testBit_eq
+  intro j
+  simp only [Nat.testBit_or, Nat.testBit_xor, Nat.testBit_and]
+  cases b.testBit j <;> cases c.testBit j <;> cases d.testBit j <;> rfl
+
+def W5 (r : Nat × Nat × Nat × Nat × Nat) : Prop :=
+  r.1 < 2 ^ 32 ∧ r.2.1 < 2 ^ 32 ∧ r.2.2.1 < 2 ^ 32 ∧ r.2.2.2.1 < 2 ^ 32 ∧ r.2.2.2.2 < 2 ^ 32
+
+theorem sha1Round_eq (r : Nat × Nat × Nat × Nat × Nat) (iw : Nat × Nat) (h : W5 r) :
+    sha1Round r iw = sha1Step r iw := by
+  obtain ⟨a, b, c, d, e⟩ := r
+  obtain ⟨i, w⟩ := iw
+  obtain ⟨ha, hb, _, _, _⟩ := h
+  simp only at ha hb
+  have hB : Gen.sha1Bounds = [20, 40, 60] := rfl
+  simp only [sha1Round, sha1Step, hB, List.getD_cons_zero, List.getD_cons_succ, sha1F, sha1K]
+  have hc : Gen.sha1NewC b = rotl32 b 30 := by unfold Gen.sha1NewC; exact sha1RotL_eq b 30 hb (by decide)
+  have ht : ∀ f k, Gen.sha1Temp a f e k w = (rotl32 a 5 + f + e + k + w) % M32 := by
+    intro f k
+    unfold Gen.sha1Temp M32
+    rw [sha1RotL_eq a 5 ha (by decide)]
+    omega
+  by_cases h1 : i < 20
+  · simp only [h1, if_true, ht, hc, sha1F0_eq b c d hb]; rfl
+  · by_cases h2 : i < 40
+    · simp only [h1, h2, if_true, if_false, ht, hc]; rfl
+    · by_cases h3 : i < 60
+      · simp only [h1, h2, h3, if_true, if_false, ht, hc, sha1F2_eq]; rfl
+      · simp only [h1, h2, h3, if_false, ht, hc]; rfl
+
+theorem sha1Step_w5 (r : Nat × Nat × Nat × Nat × Nat) (iw : Nat × Nat) (h : W5 r) : W5 (sha1Step r iw) := by
+  obtain ⟨a, b, c, d, e⟩ := r
+  obtain ⟨i, w⟩ := iw
+  obtain ⟨ha, hb, hc, hd, _⟩ := h
+  simp only at ha hb hc hd
+  exact ⟨Nat.mod_lt _ (by decide), ha, rotl32_lt b 30 hb, hc, hd⟩
+
+theorem foldl_congr_inv {σ α : Type} (P : σ → Prop) (f g : σ → α → σ) (hfg : ∀ s x, P s → f s x = g s x)
+    (hP : ∀ s x, P s → P (g s x)) : ∀ (l : List α) (s : σ), P s → l.foldl f s = l.foldl g s
+  | [], _, _ => rfl
+  | x :: l, s, h => by
+    simp only [List.foldl_cons]
+    rw [hfg _ _ h]
+    exact foldl_congr_inv P f g hfg hP l _ (hP _ _ h)
+
+/-- `sha1::process_block()` as translated = the compression function of FIPS 180-4 §6.1.2 on 32-bit words -/
+theorem sha1ProcessBlock_eq (h0 h1 h2 h3 h4 : Nat) (blk : Bytes)
+    (hw : h0 < 2 ^ 32 ∧ h1 < 2 ^ 32 ∧ h2 < 2 ^ 32 ∧ h3 < 2 ^ 32 ∧ h4 < 2 ^ 32) :
+    sha1ProcessBlock [h0, h1, h2, h3, h4] blk = sha1Compress [h0, h1, h2, h3, h4] blk := by
+  unfold sha1ProcessBlock sha1Compress
+  have hn : Gen.sha1NWords = 80 := rfl
+  simp only [List.getD_cons_zero, List.getD_cons_succ, hn, sha1W_eq]
+  rw [foldl_congr_inv W5 sha1Round sha1Step sha1Round_eq sha1Step_w5 _ (h0, h1, h2, h3, h4) hw]
+  generalize ((List.range 80).zip (Spec.sha1W blk)).foldl sha1Step (h0, h1, h2, h3, h4) = r
+  obtain ⟨a, b, c, d, e⟩ := r
+  simp [Gen.sha1Acc, M32]
+
+def St5 (st : List Nat) : Prop := st.length = 5 ∧ AllW32 st
+
+theorem sha1ProcessBlock_eq' (st : List Nat) (blk : Bytes) (h : St5 st) :
+    sha1ProcessBlock st blk = sha1Compress st blk := by
+  obtain ⟨hl, hw⟩ := h
+  match st, hl with
+  | [h0, h1, h2, h3, h4], _ =>
+    exact sha1ProcessBlock_eq h0 h1 h2 h3 h4 blk
+      ⟨hw h0 (by simp), hw h1 (by simp), hw h2 (by simp), hw h3 (by simp), hw h4 (by simp)⟩
+
+theorem sha1Compress_st5 (st : List Nat) (blk : Bytes) : St5 (sha1Compress st blk) := by
+  unfold sha1Compress
+  dsimp only
+  generalize ((List.range 80).zip (Spec.sha1W blk)).foldl sha1Step
+    (st.getD 0 0, st.getD 1 0, st.getD 2 0, st.getD 3 0, st.getD 4 0) = r
+  obtain ⟨a, b, c, d, e⟩ := r
+  refine ⟨rfl, ?_⟩
+  intro x hx
+  simp only [List.mem_cons, List.not_mem_nil, or_false] at hx
+  rcases hx with rfl | rfl | rfl | rfl | rfl <;> exact Nat.mod_lt _ (by decide)
+
+theorem and255' (x : Nat) : x &&& 255 = x % 256 := Nat.and_two_pow_sub_one_eq_mod x 8
+
+theorem sha1WordBytes_eq (w : Nat) : nats (Gen.sha1WordBytes w) = be32 w := by
+  have hr4 : List.range 4 = [0, 1, 2, 3] := by decide
+  simp only [Gen.sha1WordBytes, nats, be32, le32, hr4, List.map_cons, List.map_nil, List.reverse_cons,
+    List.reverse_nil, List.nil_append, List.cons_append, and255', Nat.shiftRight_eq_div_pow]
+  simp only [List.cons.injEq, and_true]
+  refine ⟨?_, ?_, ?_, ?_⟩ <;> congr 1 <;> simp <;> omega
+
+theorem sha1Out_eq (st : List Nat) : sha1Out st = st.flatMap be32 := by
+  unfold sha1Out nats
+  induction st with
+  | nil => rfl
+  | cons w st ih =>
+    simp only [List.flatMap_cons, List.map_append, ih]
+    congr 1
+    exact sha1WordBytes_eq w
+
+/-- the hash the SHA-1 model computes is FIPS 180-4's SHA-1 -/
+theorem sha1Hash_eq_spec (m : Bytes) : sha1Hash m = Spec.sha1 m := by
+  unfold sha1Hash Spec.sha1 mdHash
+  have hiv : Gen.sha1Init = sha1IV := by decide
+  have h0 : St5 sha1IV := ⟨rfl, by intro x hx; revert x; decide⟩
+  rw [hiv]
+  have e := absorb_congr St5 sha1ProcessBlock sha1Compress
+    sha1ProcessBlock_eq' (fun s b _ => sha1Compress_st5 s b) sha1IV (pad be64 m) h0
+  rw [e, sha1Out_eq]
+
 end Cppcms.C16
